@@ -32,7 +32,9 @@ def load_mir(ctx):
     return out
 
 def run_task(ctx, name):
-    key = name + ('@%s' % ctx.tier) + ('#%d' % ctx.seed if name.startswith('search:') else '')
+    # searches (and everything that imports their results) depend on VERIF_SEED; proofs do not
+    seeded = name.split(':')[0] in ('search', 'gsearch', 'lsearch', 'csearch', 'psearch', 'pairsearch', 'rsearch', 'handover', 'mirvc')
+    key = name + ('@%s' % ctx.tier) + ('#%d' % ctx.seed if seeded else '')
     c = ctx.cached(key)
     if c is not None:
         return c
@@ -184,8 +186,8 @@ def task_csearch(ctx, arg):
     stats, viols = search_codec.search(drv, ctx.seed, ctx.tier)
     def props(v):
         if 'encode' in v['fid'] or '_to_' in v['fid']:
-            return ['C10']
-        p = ['C08']
+            return ['C10', 'C16']      # C16: encode/decode round trips are part of every history
+        p = ['C08', 'C16']
         if not any(t in v['failure'] for t in ('short', 'long', 'shift', 'prefix')):
             p.append('C09')      # the accept / reject decision on a well-framed string is the validated constructor's
         if 'valid' in v['failure'] or 'roundtrip' in v['failure']:
@@ -242,9 +244,16 @@ def task_ground(ctx, arg):
 def task_pairsearch(ctx, arg):
     """pairing entry points on the real code vs an independent textbook R-ate pairing (spec/sm9spec.py)"""
     import search_pairing
-    drv = get_driver()
     t = time.time()
-    stats, viols = search_pairing.search(drv, ctx.seed, ctx.tier)
+    stats, viols = search_pairing.search(get_driver(), ctx.seed, ctx.tier)
+    # the optimised build as well (a normalisation hidden in a debug_assert! only disappears there)
+    st2, viols2 = search_pairing.search(get_driver('release'), ctx.seed, ctx.tier)
+    for v in viols2:
+        v['profile'] = 'release'
+        v['failure'] = v['failure'] + '@release'
+    for k, n in st2.items():
+        stats[k + '@release'] = n
+    viols = viols + viols2
     def props(v):
         if v['fid'].startswith('gt::') or v['fid'].startswith('lib::gt_'):
             return ['C11', 'C01'] if 'pow' in v['fid'] else ['C11']
@@ -422,7 +431,7 @@ def task_verus(ctx, unit):
 KANI_GROUPS = {
     'limbs_linear': dict(harnesses=['u256_add_exact', 'u256_sub_exact', 'u256_neg_exact', 'u256_mul2_exact', 'u256_div2_exact',
                                     'u256_subtract_modulus_exact', 'u256_set_get_bit'], props=['C06', 'C07', 'C18', 'C13'], timeout=600),
-    'field_linear': dict(harnesses=['fq_add_exact', 'fq_sub_exact', 'fq_neg_exact', 'fq_double_exact', 'fr_add_exact', 'fr_sub_exact', 'fr_neg_exact', 'fr_double_exact', 'fq_div2_exact'],
+    'field_linear': dict(harnesses=['fq_add_exact', 'fq_sub_exact', 'fq_neg_exact', 'fq_double_exact', 'fr_add_exact', 'fr_sub_exact', 'fr_neg_exact', 'fr_double_exact', 'fq_div2_exact', 'fq_new_range', 'fr_new_range'],
                          props=['C06', 'C07', 'C18', 'C14', 'C12'], timeout=600),
     'bytes': dict(harnesses=['u256_from_slice_total', 'u256_to_big_endian_total', 'u512_from_slice_total'], props=['C13', 'C18', 'C08', 'C10'], timeout=900),
     'dec_quick': dict(harnesses=['g1_from_slice_wrong_length', 'g1_from_uncompressed_wrong_length', 'g1_from_compressed_wrong_length',
